@@ -1,8 +1,8 @@
 (* C06 — blocks, transactions, receipts, logs and indexes are coherent.  Statements only,
    about the bookkeeping model (Model/Chain.v); gas used, number of logs and hashes of every
    transaction are universally quantified oracle answers. *)
-From Brc.Model Require Import Base Chain.
-From Brc.Proofs Require Import ChainP.
+From Brc.Model Require Import Base Chain ChainRun.
+From Brc.Proofs Require Import ChainP ChainGlobalP.
 
 (* Every block built by any sequence of accepted transactions and then finalised is coherent:
    transaction indexes 0..n-1 in order with the block's number and hash, log indexes running
@@ -42,4 +42,69 @@ Example C06_nonvacuous :
   | b :: _ => map x_cum (b_txs b) = [21000; 71000; 71000] /\ map x_logstart (b_txs b) = [0; 2; 2] /\ b_gas b = 71000
   | [] => False
   end.
+Proof. vm_compute. repeat split. Qed.
+
+(* ------------------------------------------------------------------------------------------
+   Whole chains: any list of blocks [bs] (number, hash, transactions) run from the empty chain,
+   followed by the accepted transactions [txs] of a block (number, bhash) still under
+   construction.  [fresh_blocks] / [fresh_txs] (Model/ChainRun.v) say that every accepted
+   transaction had a hash not yet on the chain at the moment it was accepted.
+   ------------------------------------------------------------------------------------------ *)
+
+(* Then: the (block, index) -> hash -> transaction/receipt lookups point at each other; EVERY
+   finalised block is coherent; the chain holds exactly the blocks sent, newest first, each listing
+   exactly its accepted transactions in order; every transaction of every block (finalised or
+   open) is found by its hash, and what is found is the row the block lists; the open block is
+   coherent as far as it goes and lists exactly the transactions accepted so far. *)
+Theorem C06_chain_coherent_run :
+  forall bs number bhash txs,
+    fresh_blocks chain_init bs = true ->
+    fresh_txs (run_blocks chain_init bs) number bhash txs = true ->
+    let c := add_txs (run_blocks chain_init bs) number bhash txs in
+    LookupInv c /\
+    (forall b, In b (c_blocks c) -> block_coherent b = true) /\
+    map (fun b => (b_number b, b_hash b, map x_hash (b_txs b))) (c_blocks c)
+      = rev (map (fun b => (bi_number b, bi_hash b, map t_hash (bi_txs b))) bs) /\
+    (forall r, (In r (o_txs (c_open c)) \/ exists b, In b (c_blocks c) /\ In r (b_txs b)) ->
+               lookup_hash c (x_hash r) = Some r) /\
+    OpenInv (c_open c) number bhash /\
+    map x_hash (rev (o_txs (c_open c))) = map t_hash txs.
+Proof. exact chain_coherent_run. Qed.
+Print Assumptions C06_chain_coherent_run.
+
+(* If the blocks sent carry the heights start, start+1, ... (the engine accepts no other: C05),
+   the chain is linked: every block has the height of the one below it plus one and its parent
+   hash is that block's hash; the oldest has parent hash 0; the heights are exactly start ... *)
+Theorem C06_chain_linked_run :
+  forall bs start,
+    contiguous start bs = true ->
+    let c := run_blocks chain_init bs in
+    linked (c_blocks c) = true /\
+    map b_number (c_blocks c) = rev (map N.of_nat (seq (N.to_nat start) (length bs))).
+Proof. exact chain_linked_run. Qed.
+Print Assumptions C06_chain_linked_run.
+
+(* ... and the (block, index) table is complete: every transaction of every finalised block is
+   found under its block's number and its index, and carries that block number. *)
+Theorem C06_chain_index_complete :
+  forall bs start,
+    contiguous start bs = true ->
+    let c := run_blocks chain_init bs in
+    forall b r, In b (c_blocks c) -> In r (b_txs b) ->
+      x_block r = b_number b /\ lookup_bi c (b_number b) (x_idx r) = Some (x_hash r).
+Proof. exact chain_index_complete. Qed.
+Print Assumptions C06_chain_index_complete.
+
+(* Non-vacuity: three blocks at heights 5, 6, 7 (the second one empty) and an open block 8. *)
+Example C06_chain_nonvacuous :
+  let bs := [(5, 55, [(11, 21000, 2); (12, 50000, 0)]); (6, 66, []); (7, 77, [(13, 30000, 1)])] in
+  let c := add_txs (run_blocks chain_init bs) 8 88 [(14, 21000, 0)] in
+  fresh_blocks chain_init bs = true /\ fresh_txs (run_blocks chain_init bs) 8 88 [(14, 21000, 0)] = true /\
+  contiguous 5 bs = true /\
+  map (fun b => (b_number b, b_hash b, b_parent b, map x_hash (b_txs b))) (c_blocks c)
+    = [(7, 77, 66, [13]); (6, 66, 55, []); (5, 55, 0, [11; 12])] /\
+  lookup_bi c 5 1 = Some 12 /\ option_map x_cum (lookup_hash c 12) = Some 71000 /\
+  lookup_bi c 8 0 = Some 14 /\
+  (* a hash accepted a second time is caught by the side condition *)
+  fresh_txs c 8 88 [(12, 1, 0)] = false.
 Proof. vm_compute. repeat split. Qed.
